@@ -168,6 +168,22 @@ impl Scheduler for LsimScheduler {
             }
         }
         let cur = current.map(usize::from).unwrap_or(usize::MAX);
+        // a harness thread polls for an instance to shut down: it must not keep the clock from
+        // advancing, and if nothing but the poller is left the instance is inert
+        let poller = locustdb_simrt::core::QUIESCE_POLLER.load(Ordering::SeqCst);
+        if poller != usize::MAX && has_timer && ids.len() == 1 && ids[0] == poller {
+            if locustdb_simrt::time::pending_timers() > 0 {
+                self.idle_run += 1;
+                IDLE_FIRINGS.fetch_add(1, Ordering::Relaxed);
+                if self.idle_run > self.spec.idle_limit {
+                    locustdb_simrt::core::QUIESCE_INERT.store(true, Ordering::SeqCst);
+                } else {
+                    ids[0] = timer;
+                }
+            } else {
+                locustdb_simrt::core::QUIESCE_INERT.store(true, Ordering::SeqCst);
+            }
+        }
         let choice = if ids.len() == 1 {
             ids[0]
         } else {
